@@ -72,6 +72,36 @@ constexpr Dump mag_of() {
     return dump(au::detail::MagT<U>{});
 }
 
+// Origin of a unit as (integer value, unit it is expressed in); ZERO origin => value 0, unitless.
+template <typename T>
+struct OrigDump {
+    static constexpr bool is_zero = false;
+    static constexpr bool integral = std::is_integral<typename T::Rep>::value;
+    using Unit = typename T::Unit;
+    static constexpr long long val(T t) { return static_cast<long long>(t.in(T::unit)); }
+};
+template <>
+struct OrigDump<au::Zero> {
+    static constexpr bool is_zero = true;
+    static constexpr bool integral = true;
+    using Unit = au::UnitProductT<>;
+    static constexpr long long val(au::Zero) { return 0; }
+};
+template <typename U>
+using OriginT = std::decay_t<decltype(au::detail::OriginOf<U>::value())>;
+template <typename U>
+constexpr long long origin_val() {
+    return OrigDump<OriginT<U>>::val(au::detail::OriginOf<U>::value());
+}
+template <typename U>
+constexpr Flat origin_unit_mag() {
+    return flat(mag_of<typename OrigDump<OriginT<U>>::Unit>());
+}
+template <typename U>
+constexpr bool origin_is_integral() {
+    return OrigDump<OriginT<U>>::integral;
+}
+
 // Equality with an expected serialisation given as a flat list id,num,den,...
 template <std::size_t K>
 constexpr bool same(const Dump &d, const std::int64_t (&flat)[K]) {
